@@ -636,6 +636,150 @@ func (c *ConcCase) Exec(t *eng.T) {
 	}
 }
 
+// ---------- a set with two loaders: the first loader that has a name wins, at every load ----------
+
+// OverrideCase: a set whose second loader has the file and whose first loader gains it later (an override is
+// installed): every load that happens after that - a first FromCache, one after CleanCache, every one in Debug mode -
+// takes the first loader's file.
+type OverrideCase struct {
+	Ops []string `json:"ops"` // FC, OVR (the first loader gains the file), DEL (loses it again), CC, CCN (CleanCache(name)), DBG
+}
+
+func (c *OverrideCase) ID() string { return "two loaders: " + strings.Join(c.Ops, " ") }
+
+func (c *OverrideCase) Exec(t *eng.T) {
+	if os.Getenv("VERIF_RACEPASS") != "" {
+		t.Skip()
+		return
+	}
+	t.Nontrivial()
+	l1, l2 := px.NewMemLoader(map[string]string{}), px.NewMemLoader(map[string]string{"/a": "default"})
+	set := pongo2.NewSet("c20-override", l1, l2)
+	cached, debug := "", false // model: text the cache holds ("" = nothing)
+	var outs []string
+	for step, op := range c.Ops {
+		switch op {
+		case "OVR":
+			l1.Files["/a"] = "override"
+		case "DEL":
+			delete(l1.Files, "/a")
+		case "CC":
+			set.CleanCache()
+			cached = ""
+		case "CCN":
+			set.CleanCache("/a")
+			cached = ""
+		case "DBG":
+			set.Debug = !set.Debug
+			debug = !debug
+		case "FC":
+			now := "default"
+			if _, has := l1.Files["/a"]; has {
+				now = "override"
+			}
+			want := cached
+			if debug {
+				want = now
+			} else if cached == "" {
+				cached, want = now, now
+			}
+			tp, err := set.FromCache("/a")
+			got := "ERR"
+			if err == nil {
+				got = px.Exec(tp, nil).S
+			}
+			outs = append(outs, got)
+			if got != want {
+				t.Fail("cache:wrong-loader", "%s: step %d FromCache(/a) renders %q, the first loader that has the file serves %q (cache model: %q, debug %v)", c.ID(), step+1, got, want, cached, debug)
+				return
+			}
+		}
+	}
+	t.Outcome(strings.Join(outs, ","))
+}
+
+// ---------- a set layered on another set: a loader of set A obtains its source through set B's cache ----------
+
+type layeredLoader struct {
+	inner *pongo2.TemplateSet
+	gets  int
+}
+
+func (l *layeredLoader) Abs(base, name string) string { return px.AbsRule(base, name) }
+func (l *layeredLoader) Get(p string) (io.Reader, error) {
+	l.gets++
+	tp, err := l.inner.FromCache(p)
+	if err != nil {
+		return nil, err
+	}
+	out, err := tp.Execute(nil)
+	if err != nil {
+		return nil, err
+	}
+	return strings.NewReader("A[" + out + "]"), nil
+}
+
+// LayeredCase: the caches of two sets are separate objects, so using set B's cache while set A is loading (A's loader
+// renders B's template of the same name) works like any other loader, and each set still compiles a name once.
+type LayeredCase struct {
+	Ops []string `json:"ops"` // FA, FB (FromCache on A / B), CA, CB (CleanCache on A / B)
+}
+
+func (c *LayeredCase) ID() string { return "layered sets: " + strings.Join(c.Ops, " ") }
+
+func (c *LayeredCase) Exec(t *eng.T) {
+	if os.Getenv("VERIF_RACEPASS") != "" {
+		t.Skip()
+		return
+	}
+	t.Nontrivial()
+	lb := px.NewMemLoader(map[string]string{"/a": "B{{ 1 }}"})
+	setB := pongo2.NewSet("c20-layer-b", lb)
+	la := &layeredLoader{inner: setB}
+	setA := pongo2.NewSet("c20-layer-a", la)
+	var inA, inB bool // model: is the name cached
+	wantA, wantB := 0, 0
+	var outs []string
+	for step, op := range c.Ops {
+		switch op {
+		case "CA":
+			setA.CleanCache()
+			inA = false
+		case "CB":
+			setB.CleanCache("/a")
+			inB = false
+		case "FA", "FB":
+			set, want := setA, "A[B1]"
+			if op == "FB" {
+				set, want = setB, "B1"
+				if !inB {
+					inB, wantB = true, wantB+1
+				}
+			} else if !inA {
+				inA, wantA = true, wantA+1
+				if !inB {
+					inB, wantB = true, wantB+1
+				}
+			}
+			tp, err := set.FromCache("/a")
+			got := "ERR"
+			if err == nil {
+				got = px.Exec(tp, nil).S
+			}
+			outs = append(outs, got)
+			if got != want {
+				t.Fail("sets:layered", "%s: step %d renders %q, want %q", c.ID(), step+1, got, want)
+				return
+			}
+			if la.gets != wantA || lb.Gets["/a"] != wantB {
+				t.Fail("sets:layered-fetches", "%s: after step %d the loaders were asked %d (A) / %d (B) times, the cache model says %d / %d", c.ID(), step+1, la.gets, lb.Gets["/a"], wantA, wantB)
+				return
+			}
+		}
+	}
+	t.Outcome(strings.Join(outs, ","))
+}
+
 // ---------- bans, globals and options of two sets ----------
 
 // IsoCase: a history of settings made on two sets (bans of tags and filters, a global, an option) followed by probes
@@ -924,6 +1068,26 @@ func run(r *eng.Runner) {
 		r.Do(&HistCase{Ops: ops, Loader: "fs"})
 		return !r.Stopped()
 	})
+	ovOps := []string{"FC", "OVR", "DEL", "CC", "CCN", "DBG"}
+	r.Group("two-loaders-override", "c20.override", fmt.Sprintf("every history of 0..%d operations over {FromCache, the first loader gains / loses the file the second loader has, CleanCache(), CleanCache(name), toggle Debug} on a set with two loaders: every load takes the file of the first loader that has it", depth+1))
+	enum.Seqs(len(ovOps), depth+1, func(idx []int) bool {
+		ops := make([]string, len(idx))
+		for i, x := range idx {
+			ops[i] = ovOps[x]
+		}
+		r.Do(&OverrideCase{Ops: ops})
+		return !r.Stopped()
+	})
+	layOps := []string{"FA", "FB", "CA", "CB"}
+	r.Group("layered-sets", "c20.layered", fmt.Sprintf("every history of 1..%d operations over {FromCache on A, FromCache on B, CleanCache on A, CleanCache(name) on B} where set A's loader obtains its source through set B's FromCache: every call returns, renders the layered text, and each set loads a name once per cache lifetime", depth+1))
+	enum.Seqs(len(layOps), depth+1, func(idx []int) bool {
+		ops := make([]string, len(idx))
+		for i, x := range idx {
+			ops[i] = layOps[x]
+		}
+		r.Do(&LayeredCase{Ops: ops})
+		return !r.Stopped()
+	})
 	// settings of one set are none of the other set's business
 	isoOps := []string{"BT(1,lorem)", "BT(1,now)", "BF(1,upper)", "BF(1,lower)", "BT(2,lorem)", "BF(2,upper)", "G(1)", "G(2)", "O(1)", "O(2)", "C(1)", "C(2)"}
 	isoDepth := 4
@@ -1030,6 +1194,8 @@ func init() {
 	eng.RegisterCase("c20.hist", func() eng.Case { return &HistCase{} })
 	eng.RegisterCase("c20.conc", func() eng.Case { return &ConcCase{} })
 	eng.RegisterCase("c20.iso", func() eng.Case { return &IsoCase{} })
+	eng.RegisterCase("c20.override", func() eng.Case { return &OverrideCase{} })
+	eng.RegisterCase("c20.layered", func() eng.Case { return &LayeredCase{} })
 	eng.RegisterCase("c20.concloader", func() eng.Case { return &ConcLoaderCase{} })
 	eng.Register(&eng.Check{
 		ID:    "C20",
